@@ -124,3 +124,41 @@ Theorem c08_sound_without_routing : forall c s mult e now ftab script s' out,
             NoDup (map fst (members_of (global_doc c (doc_ts e now) a))).
 Proof. exact sound_without_routing. Qed.
 Print Assumptions c08_sound_without_routing.
+
+(* --- soundness in general: with the uniqueness and name checks on, EVERY record of an accepted entry — the record
+   without per-metric dimensions and every dimension-set record — has pairwise different member names, provided the
+   entry is outside the class excused by the known finding: `keys_ok` says that the dimension keys of each dimension-set
+   record are pairwise different, none is `_aws`, and none is the name of another member of that record (dimension keys
+   are the one kind of member the formatter never validates).  Together with c08_sound_refuted_example this delimits the
+   finding exactly: duplicates can only come from dimension keys. *)
+From MV Require Import Emf.SoundRouting Emf.KeysPred.
+Theorem c08_sound_with_routing : forall c s mult e now ftab script s' out,
+  skip_unique c = false -> skip_names c = false -> has_unroutable e = false ->
+  format c s mult e now ftab script = (s', ROk, out) ->
+  keys_ok (abuild c ftab mult e) ->
+  Forall (fun d => NoDup (map fst (members_of d))) (emf_docs c mult e now ftab).
+Proof. exact sound_with_routing. Qed.
+Print Assumptions c08_sound_with_routing.
+
+(* the class is decidable: `keys_okb` is what the `nodup_strict` comparison evaluates on every case *)
+Theorem c08_keys_class_decided : forall a, keys_okb a = true -> keys_ok a.
+Proof. exact keys_okb_sound. Qed.
+Print Assumptions c08_keys_class_decided.
+
+Theorem c08_sound_with_routing_executable : forall c s mult e now ftab script s' out,
+  skip_unique c = false -> skip_names c = false -> has_unroutable e = false ->
+  keys_okb (abuild c ftab mult e) = true ->
+  format c s mult e now ftab script = (s', ROk, out) ->
+  Forall (fun d => NoDup (map fst (members_of d))) (emf_docs c mult e now ftab).
+Proof. exact sound_with_routing_b. Qed.
+Print Assumptions c08_sound_with_routing_executable.
+
+(* the hypotheses are satisfiable with routing: a string `k`, a global metric and a metric routed under (`d`,`v`) *)
+Example c08_example_routing_ok :
+  let e := [ITimestamp 5; IConfig CSplit; IValue (bs "k") (VString (bs "s")); IValue (bs "m") (VMetric [OUnsigned 1] UNone [] FNone);
+            IValue (bs "m") (VMetric [OUnsigned 2] UNone [(bs "d", bs "v")] FNone)] in
+  let c := mk_config false false false [bs "ns"] [[]] [] None false in
+  (keys_okb (abuild c [] None e) = true) /\ (has_unroutable e = false) /\
+  (snd (fst (format c (fresh c) None e 0%N [] [])) = ROk) /\
+  (length (emf_docs c None e 0%N []) = 2%nat).
+Proof. vm_compute. repeat split; reflexivity. Qed.
